@@ -36,6 +36,10 @@ const depPath = "example.com/dep"
 type fileIn struct {
 	Name  string   `json:"name"`
 	Decls []string `json:"decls"`
+	// text above the package clause (package doc, //go:build lines, `// +gengo:` tag comments) and behind the
+	// last declaration (trailing comments): parts of the file that lie outside [ast.File.Pos(), ast.File.End()]
+	Head string `json:"head,omitempty"`
+	Tail string `json:"tail,omitempty"`
 }
 
 type pkgIn struct {
@@ -48,9 +52,9 @@ type pkgIn struct {
 type input struct {
 	Pkgs  []pkgIn  `json:"pkgs"`
 	Dep   []pkgIn  `json:"dep,omitempty"` // packages of a second module (depPath) used through `replace depPath => ./depco`
-	Roots []string `json:"roots"` // patterns, relative to the module root
-	Procs int      `json:"procs"` // fresh processes
-	Loads int      `json:"loads"` // loads per process
+	Roots []string `json:"roots"`         // patterns, relative to the module root
+	Procs int      `json:"procs"`         // fresh processes
+	Loads int      `json:"loads"`         // loads per process
 	Note  string   `json:"note,omitempty"`
 }
 
@@ -133,6 +137,7 @@ func writeModule(dir string, in *input) error {
 		}
 		for i, f := range p.Files {
 			var b strings.Builder
+			b.WriteString(f.Head)
 			fmt.Fprintf(&b, "package %s\n\n", p.Name)
 			if i == 0 {
 				for _, imp := range p.Imports {
@@ -144,6 +149,7 @@ func writeModule(dir string, in *input) error {
 				b.WriteString(d)
 				b.WriteString("\n\n")
 			}
+			b.WriteString(f.Tail)
 			name := filepath.Base(f.Name)
 			if !strings.HasSuffix(name, ".go") {
 				name += ".go"
